@@ -233,7 +233,7 @@ theorem toUpper_digit (c : Char) (h : c.isDigit = true) : c.toUpper = c := by
     exact absurd this (by decide)
   simp [this]
 
-def hit (used : List Str) (c : Str) : Bool := used.any (fun u => upper u == upper c)
+def hit (used : List Str) (c : Str) : Bool := used.any (fun u => tkey u == tkey c)
 
 /-- the candidates `freshTitle` examines, in order -/
 def cands (orig : Str) : Nat → Nat → Str → List Str
@@ -248,14 +248,14 @@ theorem freshTitle_first (used : List Str) (orig : Str) (fuel : Nat) : ∀ (idx 
     intro idx cand ⟨c, hc, hf⟩
     unfold freshTitle
     by_cases hh : hit used cand = true
-    · have hh' : (used.any fun u => upper u == upper cand) = true := hh
+    · have hh' : (used.any fun u => tkey u == tkey cand) = true := hh
       simp only [hh', if_true]
       apply ih
       simp only [cands, List.mem_cons] at hc
       rcases hc with rfl | hc
       · rw [hh] at hf; cases hf
       · exact ⟨c, hc, hf⟩
-    · have hh' : (used.any fun u => upper u == upper cand) = false := by
+    · have hh' : (used.any fun u => tkey u == tkey cand) = false := by
         simpa [hit] using hh
       simp only [hh']
       simpa [hit] using hh
@@ -269,6 +269,20 @@ theorem upper_natStr (n : Nat) : upper (natStr n) = natStr n := by
   | cons c cs ih =>
     simp [toUpper_digit c (this c (by simp)), ih (fun x hx => this x (by simp [hx]))]
 
+theorem u2s_natStr (n : Nat) : u2s (natStr n) = natStr n := by
+  unfold u2s
+  have := natStr_digits n
+  generalize natStr n = l at this
+  induction l with
+  | nil => rfl
+  | cons c cs ih =>
+    have hc : c ≠ '_' := by
+      intro h; have := this c (by simp); rw [h] at this; exact absurd this (by decide)
+    have ih' := ih (fun x hx => this x (by simp [hx]))
+    simp only [List.map_cons, beq_iff_eq, hc, if_false]
+    simp only [beq_iff_eq] at ih'
+    rw [ih']
+
 theorem upper_cand (orig : Str) (idx : Nat) :
     upper (orig ++ ['.'] ++ natStr idx) = upper orig ++ ['.'] ++ natStr idx := by
   have h := upper_natStr idx
@@ -276,22 +290,31 @@ theorem upper_cand (orig : Str) (idx : Nat) :
   have hd : Char.toUpper '.' = '.' := by decide
   simp only [List.map_append, List.map_cons, List.map_nil, h, hd]
 
+theorem u2s_append (a b : Str) : u2s (a ++ b) = u2s a ++ u2s b := by simp [u2s]
+
+theorem tkey_cand (orig : Str) (idx : Nat) :
+    tkey (orig ++ ['.'] ++ natStr idx) = tkey orig ++ ['.'] ++ natStr idx := by
+  unfold tkey
+  rw [upper_cand, u2s_append, u2s_append, u2s_natStr]
+  rfl
+
 theorem upper_length (s : Str) : (upper s).length = s.length := by simp [upper]
+theorem tkey_length (s : Str) : (tkey s).length = s.length := by simp [tkey, u2s, upper]
 
 theorem cands_upper (orig : Str) (f : Nat) : ∀ idx, ∀ c ∈ cands orig (idx + 1) f (orig ++ ['.'] ++ natStr idx),
-    ∃ j, idx ≤ j ∧ upper c = upper orig ++ ['.'] ++ natStr j := by
+    ∃ j, idx ≤ j ∧ tkey c = tkey orig ++ ['.'] ++ natStr j := by
   induction f with
   | zero => intro idx c hc; simp [cands] at hc
   | succ f ih =>
     intro idx c hc
     simp only [cands, List.mem_cons] at hc
     rcases hc with rfl | hc
-    · exact ⟨idx, Nat.le_refl _, upper_cand orig idx⟩
+    · exact ⟨idx, Nat.le_refl _, tkey_cand orig idx⟩
     · obtain ⟨j, hj, he⟩ := ih (idx + 1) c hc
       exact ⟨j, by omega, he⟩
 
 theorem cands_nodup_tail (orig : Str) (f : Nat) : ∀ idx,
-    ((cands orig (idx + 1) f (orig ++ ['.'] ++ natStr idx)).map upper).Nodup := by
+    ((cands orig (idx + 1) f (orig ++ ['.'] ++ natStr idx)).map tkey).Nodup := by
   induction f with
   | zero => intro idx; simp [cands]
   | succ f ih =>
@@ -301,11 +324,11 @@ theorem cands_nodup_tail (orig : Str) (f : Nat) : ∀ idx,
     intro hmem
     obtain ⟨c, hc, he⟩ := List.mem_map.mp hmem
     obtain ⟨j, hj, hj'⟩ := cands_upper orig f (idx + 1) c hc
-    rw [upper_cand orig idx, hj'] at he
+    rw [tkey_cand orig idx, hj'] at he
     have := natStr_inj (List.append_cancel_left he)
     omega
 
-theorem cands_nodup (l : Str) (f : Nat) : ((cands l 1 f l).map upper).Nodup := by
+theorem cands_nodup (l : Str) (f : Nat) : ((cands l 1 f l).map tkey).Nodup := by
   cases f with
   | zero => simp [cands]
   | succ f =>
@@ -323,7 +346,7 @@ theorem cands_length (orig : Str) (f : Nat) : ∀ idx cand, (cands orig idx f ca
   | succ f ih => intro idx cand; simp [cands, ih]
 
 /-- pigeonhole: pairwise case-distinct candidates cannot all collide with the used titles if there are more of them -/
-theorem exists_fresh (used l : List Str) (hn : (l.map upper).Nodup) (hlen : used.length < l.length) :
+theorem exists_fresh (used l : List Str) (hn : (l.map tkey).Nodup) (hlen : used.length < l.length) :
     ∃ c ∈ l, hit used c = false := by
   apply Classical.byContradiction
   intro hno
@@ -332,7 +355,7 @@ theorem exists_fresh (used l : List Str) (hn : (l.map upper).Nodup) (hlen : used
     cases h : hit used c with
     | true => rfl
     | false => exact absurd ⟨c, hc, h⟩ hno
-  have hsub : l.map upper ⊆ used.map upper := by
+  have hsub : l.map tkey ⊆ used.map tkey := by
     intro x hx
     obtain ⟨c, hc, rfl⟩ := List.mem_map.mp hx
     have := hall c hc
@@ -737,7 +760,7 @@ and pairwise distinct up to case — the fuel `used.length + 1` of `freshTitle` 
 candidates `l`, `l.1`, `l.2`, …) -/
 theorem assignTitles_distinct : ∀ (labels used : List Str),
     (assignTitles used labels).length = labels.length ∧
-    (∀ t ∈ assignTitles used labels, hit used t = false) ∧ ((assignTitles used labels).map upper).Nodup := by
+    (∀ t ∈ assignTitles used labels, hit used t = false) ∧ ((assignTitles used labels).map tkey).Nodup := by
   intro labels
   induction labels with
   | nil => intro used; simp [assignTitles]
@@ -771,8 +794,10 @@ theorem title_link_resolves (sup : Option Bool) (labels : List Str) (blocks : Li
   have hd : ∀ i j, i < (assignTitles [] labels).length → j < (assignTitles [] labels).length →
       ((assignTitles [] labels)[i]?).map upper = ((assignTitles [] labels)[j]?).map upper → i = j := by
     intro i j hi hj he
-    have : ((assignTitles [] labels).map upper)[i]? = ((assignTitles [] labels).map upper)[j]? := by
-      simpa [List.getElem?_map] using he
+    have : ((assignTitles [] labels).map tkey)[i]? = ((assignTitles [] labels).map tkey)[j]? := by
+      have he' := congrArg (Option.map u2s) he
+      have hk : tkey = fun x => u2s (upper x) := rfl
+      simpa [List.getElem?_map, hk, Function.comp_def] using he'
     exact (List.getElem?_inj (by simpa using hi) hnd).mp this
   have hl : linkBlocks sup labels.length = true := by
     rcases hs with h | ⟨h, h'⟩ <;> simp [linkBlocks, h] <;> omega
@@ -1878,8 +1903,8 @@ theorem matchchar_fold (cfg : RCfg) (f : List Cell) (mc : Char) (hfirst : cfg.fi
 /-- **MATCHCHAR.**  A row in which any cells are replaced by the match character reads as the cells of the first
 sequence at those positions and as the written cells elsewhere (`_read_character_states` with `first_sequence_defined`).
 Row level: the first sequence is GIVEN (`cfg.first = some f`); the statement is not lifted to `nxStep`/`nxRead`, where
-`first` is looked up in the accumulator — see `nexus_matchchar_roundtrip_partial` for the lift to one `nxStep`; the fold
-over a whole matrix with match characters is compared with the code only. -/
+`first` is looked up in the accumulator — see `nexus_matchchar_step` for the lift to one `nxStep` and
+`nexus_matchchar_matrix_roundtrip` for the whole matrix. -/
 theorem matchchar_row_roundtrip (cfg : RCfg) (f : List Cell) (mc : Char) (items : List (Option Cell))
     (hfirst : cfg.first = some f) (hmc : cfg.matchChars.contains mc = true)
     (hmw : isWs mc = false) (hm1 : mc ≠ '{') (hm2 : mc ≠ '(') (hm3 : mc ≠ ';')
@@ -1891,10 +1916,10 @@ theorem matchchar_row_roundtrip (cfg : RCfg) (f : List Cell) (mc : Char) (items 
   simp [this]
 
 /-- **interleaved NEXUS, one line.**  A further chunk of a row that already has `cur` cells is appended to it.
-`_partial`: this is the step of the interleaved reader (any row, any earlier content, any chunk that fits NCHAR); the
+This is the step of the interleaved reader (any row, any earlier content, any chunk that fits NCHAR); the
 fold over all lines of all pages is `nexus_interleaved_matrix_roundtrip` below (which also covers the first chunk of a
 row, `findRow = some none`, through `nexus_chunk_step`). -/
-theorem nexus_interleaved_roundtrip_partial (cfg : NxCfg) (acc : Acc) (first : Option Str) (label : Str) (cur cells : List Cell)
+theorem nexus_interleaved_step (cfg : NxCfg) (acc : Acc) (first : Option Str) (label : Str) (cur cells : List Cell)
     (hk : findRow acc label = some (some cur)) (hi : cfg.interleave = true)
     (hok : ∀ c ∈ cells, CellOk cfg.al cfg.matchChars c) (hlen : cur.length + cells.length ≤ cfg.nchar) :
     nxStep cfg (.ok (acc, first)) (label, renderCells cells)
@@ -2537,9 +2562,8 @@ open DendroModel.C09.Aux DendroModel.Alphabets
 /-- **MATCHCHAR inside the matrix reader.**  A MATRIX row (new label or a TAXA-block taxon without a sequence yet) in which
 any cells are given by the match character, read by `nxStep` when the first row of the matrix — looked up in the
 accumulator under the remembered first label — holds the cells `f`: the row is stored with `f`'s cells at those
-positions.  `_partial`: one row; the fold over all rows of a matrix (the first row stays in place while later rows are
-stored) is not proved — matrices with match characters are compared with the code on every such case. -/
-theorem nexus_matchchar_roundtrip_partial (cfg : NxCfg) (acc : Acc) (l0 label : Str) (f : List Cell) (mc : Char)
+positions.  One row; the fold over all rows of a matrix is `nexus_matchchar_matrix_roundtrip`. -/
+theorem nexus_matchchar_step (cfg : NxCfg) (acc : Acc) (l0 label : Str) (f : List Cell) (mc : Char)
     (items : List (Option Cell))
     (hfirst : findRow acc l0 = some (some f))
     (hk : (findRow acc label = none ∧ (cfg.ntax = 0 ∨ acc.length < cfg.ntax)) ∨ findRow acc label = some none)
@@ -2568,8 +2592,477 @@ example : nxStep ⟨mkStates dna, ['.'], 3, 2, false⟩ (.ok ([("A".toList, some
       ("B".toList, renderM '.' [none, some (.sym 'T'), none])
     = .ok (setRow [("A".toList, some [.sym 'A', .sym 'C', .sym 'G']), ("B".toList, none)] "B".toList
         (fillM [.sym 'A', .sym 'C', .sym 'G'] 0 [none, some (.sym 'T'), none]), some "A".toList) :=
-  nexus_matchchar_roundtrip_partial _ _ _ _ _ '.' _ (by decide) (Or.inr (by decide)) rfl (by decide) (by decide) (by decide)
+  nexus_matchchar_step _ _ _ _ _ '.' _ (by decide) (Or.inr (by decide)) rfl (by decide) (by decide) (by decide)
     (by decide) (by decide) (by intro c hc; simp at hc; subst hc; unfold CellOk; decide) rfl (by decide)
 
 end DendroModel.C09
 
+/-! ## MATCHCHAR, whole matrix -/
+namespace DendroModel.C09
+open DendroModel.C09.Aux DendroModel.Alphabets
+
+def noneL (ls : List Str) : Acc := ls.map (fun l => (l, none))
+
+/-- rows with match characters, as read: the first row's cells wherever the match character stands -/
+def fillRows (f : List Cell) (rest : List (Str × List (Option Cell))) : Matrix :=
+  rest.map (fun r => (r.1, fillM f 0 r.2))
+
+def renderRowsM (mc : Char) (rest : List (Str × List (Option Cell))) : List (Str × Str) :=
+  rest.map (fun r => (r.1, renderM mc r.2))
+
+theorem findRow_head (l0 : Str) (f : List Cell) (P : Matrix) (T : Acc) :
+    findRow (someRows ((l0, f) :: P) ++ T) l0 = some (some f) := by
+  simp [findRow, someRows]
+
+/-- the fold over the rows after the first one; `T` is what is left of the TAXA block's empty entries
+(`noneL` of the labels still to come) or nothing at all (DATA block) -/
+theorem matchchar_fold_rows (cfg : NxCfg) (hi : cfg.interleave = false) (l0 : Str) (f : List Cell) (mc : Char)
+    (hfl : cfg.nchar ≤ f.length)
+    (hmc : cfg.matchChars.contains mc = true) (hmw : isWs mc = false) (hm1 : mc ≠ '{') (hm2 : mc ≠ '(') (hm3 : mc ≠ ';')
+    (taxa : Bool) :
+    ∀ (rest : List (Str × List (Option Cell))) (P : Matrix),
+      ((((l0, f) :: P).map (fun r => lower r.1)) ++ rest.map (fun r => lower r.1)).Nodup →
+      (∀ r ∈ rest, ∀ c, some c ∈ r.2 → CellOk cfg.al cfg.matchChars c) → (∀ r ∈ rest, r.2.length = cfg.nchar) →
+      (taxa = true ∨ cfg.ntax = 0 ∨ (P.length + 1 + rest.length) ≤ cfg.ntax) →
+      (renderRowsM mc rest).foldl (nxStep cfg)
+          (.ok (someRows ((l0, f) :: P) ++ (if taxa then noneL (rest.map (·.1)) else []), some l0))
+        = .ok (someRows ((l0, f) :: P ++ fillRows f rest), some l0) := by
+  intro rest
+  induction rest with
+  | nil => intro P _ _ _ _; cases taxa <;> simp [renderRowsM, fillRows, noneL]
+  | cons r rs ih =>
+    intro P hnd hok hlen hnt
+    have hpre : ∀ p ∈ someRows ((l0, f) :: P), (lower p.1 == lower r.1) = false := by
+      intro p hp
+      simp only [someRows, List.mem_map] at hp
+      obtain ⟨q, hq, rfl⟩ := hp
+      have := (List.nodup_append.mp hnd).2.2 (lower q.1) (List.mem_map.mpr ⟨q, hq, rfl⟩) (lower r.1) (by simp)
+      simpa using this
+    have hfirst : ∀ T, findRow (someRows ((l0, f) :: P) ++ T) l0 = some (some f) := findRow_head l0 f P
+    have hnd' : ((((l0, f) :: (P ++ [(r.1, fillM f 0 r.2)])).map (fun r => lower r.1)) ++ rs.map (fun r => lower r.1)).Nodup := by
+      simpa [List.map_append, List.append_assoc] using hnd
+    have hrl := hlen r (by simp)
+    cases taxa with
+    | true =>
+      have hfind : findRow (someRows ((l0, f) :: P) ++ noneL ((r :: rs).map (·.1))) r.1 = some none := by
+        rw [findRow_append _ _ _ hpre]; simp [noneL, findRow]
+      have hstep := nexus_matchchar_step cfg (someRows ((l0, f) :: P) ++ noneL ((r :: rs).map (·.1))) l0 r.1 f mc r.2
+        (hfirst _) (Or.inr hfind) hi hmc hmw hm1 hm2 hm3 (hok r (by simp)) hrl (by omega)
+      have hset : setRow (someRows ((l0, f) :: P) ++ noneL ((r :: rs).map (·.1))) r.1 (fillM f 0 r.2)
+          = someRows ((l0, f) :: (P ++ [(r.1, fillM f 0 r.2)])) ++ noneL (rs.map (·.1)) := by
+        rw [setRow_append _ _ _ _ hpre]; simp [noneL, someRows, setRow]
+      have := ih (P ++ [(r.1, fillM f 0 r.2)]) hnd' (fun x hx => hok x (by simp [hx])) (fun x hx => hlen x (by simp [hx])) (Or.inl rfl)
+      simp only [renderRowsM, List.map_cons, List.foldl_cons, if_true] at this hstep hset ⊢
+      rw [hstep, hset, this]
+      simp [fillRows]
+    | false =>
+      have hfresh : findRow (someRows ((l0, f) :: P)) r.1 = none := findRow_none _ _ hpre
+      have hroom : cfg.ntax = 0 ∨ (someRows ((l0, f) :: P)).length < cfg.ntax := by
+        rcases hnt with h | h | h
+        · cases h
+        · exact Or.inl h
+        · right; simp [someRows] at h ⊢; omega
+      have hstep := nexus_matchchar_step cfg (someRows ((l0, f) :: P)) l0 r.1 f mc r.2
+        (by simpa using hfirst []) (Or.inl ⟨hfresh, hroom⟩) hi hmc hmw hm1 hm2 hm3 (hok r (by simp)) hrl (by omega)
+      have hset : setRow (someRows ((l0, f) :: P)) r.1 (fillM f 0 r.2) = someRows ((l0, f) :: (P ++ [(r.1, fillM f 0 r.2)])) := by
+        rw [setRow_fresh _ _ _ hfresh]; simp [someRows]
+      have := ih (P ++ [(r.1, fillM f 0 r.2)]) hnd' (fun x hx => hok x (by simp [hx])) (fun x hx => hlen x (by simp [hx]))
+        (by rcases hnt with h | h | h
+            · cases h
+            · exact Or.inr (Or.inl h)
+            · right; right; simp at h ⊢; omega)
+      simp only [renderRowsM, List.map_cons, List.foldl_cons, Bool.false_eq_true, if_false, List.append_nil] at this ⊢
+      rw [hstep, hset, this]
+      simp [fillRows]
+
+/-- **whole matrix with MATCHCHAR, sequential NEXUS.**  The first row is written out; in every later row ANY cells may be
+given by the match character.  Read back — TAXA block path and DATA block path — the matrix has the same taxa in the
+same order, the first row's cells, and in the later rows the first row's cell wherever the match character stands and
+the written cell elsewhere. -/
+theorem nexus_matchchar_matrix_roundtrip (cfg : NxCfg) (r0 : Str × List Cell) (rest : List (Str × List (Option Cell))) (mc : Char)
+    (hi : cfg.interleave = false)
+    (hmc : cfg.matchChars.contains mc = true) (hmw : isWs mc = false) (hm1 : mc ≠ '{') (hm2 : mc ≠ '(') (hm3 : mc ≠ ';')
+    (hlab : ((r0.1 :: rest.map (·.1)).map lower).Nodup)
+    (hok0 : ∀ c ∈ r0.2, CellOk cfg.al cfg.matchChars c) (hlen0 : r0.2.length = cfg.nchar)
+    (hok : ∀ r ∈ rest, ∀ c, some c ∈ r.2 → CellOk cfg.al cfg.matchChars c) (hlen : ∀ r ∈ rest, r.2.length = cfg.nchar)
+    (hnt : cfg.ntax = 0 ∨ rest.length + 1 ≤ cfg.ntax) :
+    nxRead cfg (r0.1 :: rest.map (·.1)) ((r0.1, renderCells r0.2) :: renderRowsM mc rest)
+        = .ok ((r0.1, r0.2.map readsAs) :: fillRows (r0.2.map readsAs) rest) ∧
+    nxRead cfg [] ((r0.1, renderCells r0.2) :: renderRowsM mc rest)
+        = .ok ((r0.1, r0.2.map readsAs) :: fillRows (r0.2.map readsAs) rest) := by
+  have hnd : ((((r0.1, r0.2.map readsAs) :: ([] : Matrix)).map (fun r => lower r.1)) ++ rest.map (fun r => lower r.1)).Nodup := by
+    simpa [List.map_map, Function.comp_def] using hlab
+  have hfl : cfg.nchar ≤ (r0.2.map readsAs).length := by simp [hlen0]
+  constructor
+  · have hfind : findRow ((r0.1, none) :: noneL (rest.map (·.1))) r0.1 = some none := by simp [findRow]
+    have hstep := nexus_row_step cfg ((r0.1, none) :: noneL (rest.map (·.1))) none r0.1 r0.2 (Or.inr hfind) hi hok0 hlen0
+    have hset : setRow ((r0.1, none) :: noneL (rest.map (·.1))) r0.1 (r0.2.map readsAs)
+        = someRows ((r0.1, r0.2.map readsAs) :: []) ++ noneL (rest.map (·.1)) := by
+      simp [setRow, someRows]
+    have hf := matchchar_fold_rows cfg hi r0.1 (r0.2.map readsAs) mc hfl hmc hmw hm1 hm2 hm3 true rest [] hnd hok hlen (Or.inl rfl)
+    unfold nxRead
+    simp only [List.map_cons, List.foldl_cons]
+    have h0 : (List.map (fun t => ((t, none) : Str × Option (List Cell))) (rest.map (·.1))) = noneL (rest.map (·.1)) := rfl
+    rw [h0, hstep, hset]
+    simp only [Option.getD_none, if_true] at hf ⊢
+    rw [hf]
+    exact congrArg Except.ok (accRows_someRows _)
+  · have hfresh : findRow ([] : Acc) r0.1 = none := by simp [findRow]
+    have hroom : cfg.ntax = 0 ∨ ([] : Acc).length < cfg.ntax := by
+      rcases hnt with h | h
+      · exact Or.inl h
+      · right; simp; omega
+    have hstep := nexus_row_step cfg [] none r0.1 r0.2 (Or.inl ⟨hfresh, hroom⟩) hi hok0 hlen0
+    have hset : setRow ([] : Acc) r0.1 (r0.2.map readsAs) = someRows ((r0.1, r0.2.map readsAs) :: []) := by
+      simp [setRow, someRows]
+    have hf := matchchar_fold_rows cfg hi r0.1 (r0.2.map readsAs) mc hfl hmc hmw hm1 hm2 hm3 false rest [] hnd hok hlen
+      (by rcases hnt with h | h
+          · exact Or.inr (Or.inl h)
+          · right; right; simp; omega)
+    unfold nxRead
+    simp only [List.map_nil, List.foldl_cons]
+    rw [hstep, hset]
+    simp only [Option.getD_none, Bool.false_eq_true, if_false, List.append_nil] at hf ⊢
+    rw [hf]
+    exact congrArg Except.ok (accRows_someRows _)
+
+example : (nxRead ⟨mkStates dna, ['.'], 3, 3, false⟩ ["A".toList, "B".toList, "C".toList]
+    (("A".toList, renderCells [.sym 'A', .sym 'C', .sym 'R']) ::
+      renderRowsM '.' [("B".toList, [none, some (.sym 'T'), none]), ("C".toList, [none, none, none])])).toOption
+    = some (("A".toList, [.sym 'A', .sym 'C', .sym 'R']) ::
+        fillRows [.sym 'A', .sym 'C', .sym 'R'] [("B".toList, [none, some (.sym 'T'), none]), ("C".toList, [none, none, none])]) := by
+  decide
+end DendroModel.C09
+
+/-! ## NeXML columns, arbitrary id scheme -/
+namespace DendroModel.C09
+open DendroModel.C09.Aux
+
+theorem range_union_map (colId : Nat → Nat) (hinj : ∀ a b, colId a = colId b → a = b) (k n : Nat) :
+    (List.range k).map colId ++ ((List.range n).map colId).filter (fun i => !((List.range k).map colId).contains i)
+      = (List.range (max k n)).map colId := by
+  rw [← range_union k n, List.map_append, List.filter_map]
+  congr 2
+  apply List.filter_congr
+  intro i _
+  have : (colId i ∈ (List.range k).map colId) ↔ i ∈ List.range k := by
+    constructor
+    · intro h
+      obtain ⟨a, ha, he⟩ := List.mem_map.mp h
+      rw [← hinj a i he]; exact ha
+    · intro h; exact List.mem_map.mpr ⟨i, h, rfl⟩
+  by_cases hm : i ∈ List.range k
+  · simp [Function.comp, this.mpr hm, hm]
+  · have hm' : ¬ colId i ∈ (List.range k).map colId := fun h => hm (this.mp h)
+    simp only [Function.comp, List.contains_eq_mem, hm', hm, decide_false]
+
+theorem nexmlChars_inj (colId : Nat → Nat) (hinj : ∀ a b, colId a = colId b → a = b) (lens : List Nat) : ∀ k,
+    lens.foldl (fun acc n => acc ++ ((List.range n).map colId).filter (fun i => !acc.contains i)) ((List.range k).map colId)
+      = (List.range (lens.foldl max k)).map colId := by
+  induction lens with
+  | nil => intro k; rfl
+  | cons n ns ih =>
+    intro k
+    simp only [List.foldl_cons]
+    rw [range_union_map colId hinj, ih]
+
+theorem idxOf_map_inj (colId : Nat → Nat) (hinj : ∀ a b, colId a = colId b → a = b) (n j : Nat) (h : j < n) :
+    ((List.range n).map colId).idxOf (colId j) = j := by
+  induction n with
+  | zero => omega
+  | succ n ih =>
+    rw [List.range_succ, List.map_append, List.idxOf_append]
+    by_cases hj : j < n
+    · have : colId j ∈ (List.range n).map colId := List.mem_map.mpr ⟨j, by simpa using hj, rfl⟩
+      simp [this, ih hj]
+    · have : j = n := by omega
+      subst this
+      have hn : ¬ colId j ∈ (List.range j).map colId := by
+        intro hm
+        obtain ⟨a, ha, he⟩ := List.mem_map.mp hm
+        have := hinj a j he
+        simp at ha; omega
+      simp [hn]
+
+/-- **whole matrix, NeXML, any id scheme.**  Whatever ids the writer hands out — as long as the id of a cell is a function
+of its column index alone and distinct columns get distinct ids (the repaired `_write_format_section`; the ids of the
+real writer are `d<counter>` strings drawn from a global counter) — the format section lists them in column order and
+every row, of any length, reads back unshifted and without `None` padding. -/
+theorem nexml_matrix_columns_any_ids (colId : Nat → Nat) (hinj : ∀ a b, colId a = colId b → a = b) (rows : List (List α)) :
+    ∀ r ∈ rows, nexmlReadRow (nexmlChars colId (rows.map List.length)) (nexmlWriteRow colId r) = some (r.map some) := by
+  intro r hr
+  have hc : nexmlChars colId (rows.map List.length) = (List.range ((rows.map List.length).foldl max 0)).map colId := by
+    unfold nexmlChars
+    simpa using nexmlChars_inj colId hinj (rows.map List.length) 0
+  apply nexml_columns_partial
+  intro j hj
+  have hle : r.length ≤ (rows.map List.length).foldl max 0 :=
+    (le_foldl_max _ 0).2 _ (List.mem_map.mpr ⟨r, hr, rfl⟩)
+  rw [hc]
+  exact ⟨List.mem_map.mpr ⟨j, by simp; omega, rfl⟩, idxOf_map_inj colId hinj _ _ (by omega)⟩
+
+example : nexmlChars (fun j => 3 * j + 7) [2, 3, 1] = [7, 10, 13] := by decide
+end DendroModel.C09
+
+/-! ## TITLE / LINK tokens through escaping (`escape_nexus_token`) and the tokenizer, every option setting -/
+namespace DendroModel.C09
+open DendroModel.C09.Aux
+
+theorem undbl_dbl (s : Str) : undbl (dblQuotes s) = s := by
+  induction s with
+  | nil => rfl
+  | cons c cs ih =>
+    by_cases hc : c = '\''
+    · subst hc
+      simp [dblQuotes, undbl, ih]
+    · have hb : (c == '\'') = false := by simpa using hc
+      simp only [dblQuotes, hb]
+      cases hd : dblQuotes cs with
+      | nil => rw [hd] at ih; simp [undbl, ← ih]
+      | cons d ds =>
+        rw [hd] at ih
+        simp [undbl, hb, ih]
+
+theorem quoted_roundtrip (pu : Bool) (s : Str) : readToken pu ('\'' :: (dblQuotes s ++ ['\''])) = s := by
+  simp [readToken, undbl_dbl]
+
+/-- per character: the key is blind to the underscore/blank difference, before or after upper-casing -/
+theorem tkey_u2s (s : Str) : tkey (u2s s) = tkey s := by
+  unfold tkey upper u2s
+  induction s with
+  | nil => rfl
+  | cons c cs ih =>
+    simp only [List.map_cons, List.cons.injEq]
+    refine ⟨?_, ih⟩
+    by_cases hc : c = '_'
+    · subst hc; decide
+    · simp [hc]
+
+theorem tkey_s2u (s : Str) : tkey (s2u s) = tkey s := by
+  unfold tkey upper u2s s2u
+  induction s with
+  | nil => rfl
+  | cons c cs ih =>
+    simp only [List.map_cons, List.cons.injEq]
+    refine ⟨?_, ih⟩
+    by_cases hc : c = ' '
+    · subst hc; decide
+    · simp [hc]
+
+theorem readToken_unquoted (pu : Bool) (t : Str) (h : t.head? ≠ some '\'') :
+    readToken pu t = if pu then t else u2s t := by
+  unfold readToken
+  split
+  · simp at h
+  · rfl
+
+theorem not_protect (s : Str) (h : needsProtect s = false) : ∀ c ∈ s, c ≠ '\t' ∧ c ≠ '\'' := by
+  intro c hc
+  simp only [needsProtect, List.any_eq_false] at h
+  have := h c hc
+  constructor
+  · intro he; subst he; exact absurd this (by decide)
+  · intro he; subst he; exact absurd this (by decide)
+
+theorem tkey_spaces (s : Str) (h : ∀ c ∈ s, c ≠ '\t') :
+    tkey (s.map (fun c => if c == ' ' || c == '\t' then '_' else c)) = tkey s := by
+  unfold tkey upper u2s
+  induction s with
+  | nil => rfl
+  | cons c cs ih =>
+    simp only [List.map_cons, List.cons.injEq]
+    refine ⟨?_, ih (fun x hx => h x (by simp [hx]))⟩
+    by_cases hc : c = ' '
+    · subst hc; decide
+    · have ht : c ≠ '\t' := h c (by simp)
+      simp [hc, ht]
+
+/-- a written title token reads back, under either reader setting, as a title with the same key -/
+theorem tkey_readToken (ps qu pu : Bool) (s : Str) : tkey (readToken pu (escToken ps qu s)) = tkey s := by
+  unfold escToken
+  split
+  · rename_i h1
+    simp only [Bool.and_eq_true, Bool.not_eq_true'] at h1
+    have hp := not_protect s h1.2
+    have hh : (s.map (fun c => if c == ' ' || c == '\t' then '_' else c)).head? ≠ some '\'' := by
+      cases s with
+      | nil => simp
+      | cons c cs =>
+        have := (hp c (by simp)).2
+        simp only [List.map_cons, List.head?_cons, ne_eq, Option.some.injEq]
+        split
+        · decide
+        · exact this
+    rw [readToken_unquoted pu _ hh]
+    cases pu
+    · simp only [Bool.false_eq_true, if_false]; rw [tkey_u2s]; exact tkey_spaces s (fun c hc => (hp c hc).1)
+    · simp only [if_true]; exact tkey_spaces s (fun c hc => (hp c hc).1)
+  · split
+    · rw [quoted_roundtrip]
+    · rename_i h1 h2
+      have hnp : needsProtect s = false := by
+        cases h : needsProtect s with
+        | false => rfl
+        | true => simp [h] at h2
+      have hp := not_protect s hnp
+      have hh : s.head? ≠ some '\'' := by
+        cases s with
+        | nil => simp
+        | cons c cs => simpa using (hp c (by simp)).2
+      rw [readToken_unquoted pu _ hh]
+      cases pu
+      · simp only [Bool.false_eq_true, if_false]; exact tkey_u2s s
+      · rfl
+
+/-- default writer options (hard underscores) and default reader: the title reads back exactly -/
+theorem title_token_roundtrip (ps : Bool) (s : Str) : readToken false (escToken ps true s) = s := by
+  unfold escToken
+  split
+  · rename_i h1
+    simp only [Bool.and_eq_true, Bool.not_eq_true'] at h1
+    have hp := not_protect s h1.2
+    have hu : ∀ c ∈ s, c ≠ '_' := by
+      intro c hc he; subst he
+      have := h1.1.2
+      simp [hc] at this
+    have hh : (s.map (fun c => if c == ' ' || c == '\t' then '_' else c)).head? ≠ some '\'' := by
+      cases s with
+      | nil => simp
+      | cons c cs =>
+        have := (hp c (by simp)).2
+        simp only [List.map_cons, List.head?_cons, ne_eq, Option.some.injEq]
+        split
+        · decide
+        · exact this
+    rw [readToken_unquoted false _ hh]
+    simp only [Bool.false_eq_true, if_false, u2s, List.map_map]
+    clear hh h1
+    induction s with
+    | nil => rfl
+    | cons c cs ih =>
+      simp only [List.map_cons, List.cons.injEq]
+      refine ⟨?_, ih (fun x hx => hp x (by simp [hx])) (fun x hx => hu x (by simp [hx]))⟩
+      have h1 := (hp c (by simp)).1
+      have h2 := hu c (by simp)
+      by_cases hc : c = ' '
+      · subst hc; decide
+      · simp [hc, h1, h2]
+  · split
+    · rw [quoted_roundtrip]
+    · rename_i h1 h2
+      simp only [Bool.true_and, Bool.or_eq_true, not_or, Bool.not_eq_true] at h2
+      have hp := not_protect s h2.1.1
+      have hh : s.head? ≠ some '\'' := by
+        cases s with
+        | nil => simp
+        | cons c cs => simpa using (hp c (by simp)).2
+      rw [readToken_unquoted false _ hh]
+      simp only [Bool.false_eq_true, if_false, u2s]
+      have hu : ∀ c ∈ s, c ≠ '_' := by
+        intro c hc he; subst he
+        have := h2.2
+        simp [hc] at this
+      clear hh h1 h2
+      induction s with
+      | nil => rfl
+      | cons c cs ih =>
+        simp only [List.map_cons, List.cons.injEq]
+        refine ⟨?_, ih (fun x hx => hp x (by simp [hx])) (fun x hx => hu x (by simp [hx]))⟩
+        simp [hu c (by simp)]
+
+/-- TITLE / LINK tokens written under ANY setting of `preserve_spaces` / `unquoted_underscores` and read back with or
+without `preserve_underscores`: every block's LINK resolves to the block's own namespace, for arbitrary namespace
+labels — equal ones, or labels differing only in letter case, in blank versus underscore, or in quote characters.
+(The repaired writer keys uniqueness on `tkey`, which no combination of escaping and reading can merge.) -/
+theorem title_link_resolves_escaped (ps uu pu : Bool) (sup : Option Bool) (labels : List Str) (blocks : List Nat)
+    (hs : sup = some false ∨ (sup = none ∧ labels.length > 1))
+    (hb : ∀ b ∈ blocks, b < labels.length) :
+    readLinksE pu (writeLinksE ps uu sup labels blocks) = blocks.map .ok := by
+  obtain ⟨hlen, _, hnd⟩ := assignTitles_distinct labels []
+  let dec : Str → Str := fun t => readToken pu (escToken ps (!uu) t)
+  have hlen' : ((assignTitles [] labels).map dec).length = labels.length := by simp [hlen]
+  have hd : ∀ i j, i < ((assignTitles [] labels).map dec).length → j < ((assignTitles [] labels).map dec).length →
+      (((assignTitles [] labels).map dec)[i]?).map upper = (((assignTitles [] labels).map dec)[j]?).map upper → i = j := by
+    intro i j hi hj he
+    have hi' : i < (assignTitles [] labels).length := by simpa using hi
+    have hj' : j < (assignTitles [] labels).length := by simpa using hj
+    have : ((assignTitles [] labels).map tkey)[i]? = ((assignTitles [] labels).map tkey)[j]? := by
+      have he' := congrArg (Option.map u2s) he
+      simp only [List.getElem?_map, List.getElem?_eq_getElem hi', List.getElem?_eq_getElem hj', Option.map_some,
+        Option.some.injEq] at he' ⊢
+      have e1 : u2s (upper (dec (assignTitles [] labels)[i])) = tkey (assignTitles [] labels)[i] := tkey_readToken _ _ _ _
+      have e2 : u2s (upper (dec (assignTitles [] labels)[j])) = tkey (assignTitles [] labels)[j] := tkey_readToken _ _ _ _
+      rw [← e1, ← e2]; exact he'
+    exact (List.getElem?_inj (by simpa using hi') hnd).mp this
+  have hl : linkBlocks sup labels.length = true := by
+    rcases hs with h | ⟨h, h'⟩ <;> simp [linkBlocks, h] <;> omega
+  unfold readLinksE writeLinksE readLinks writeLinks
+  simp only [hl, if_true, List.map_map]
+  apply List.map_congr_left
+  intro b hbm
+  have hb' : b < ((assignTitles [] labels).map dec).length := by rw [hlen']; exact hb b hbm
+  have := resolve_distinct ((assignTitles [] labels).map dec) b hb' hd
+  simpa [Function.comp_def, dec, List.getElem?_map] using this
+
+example : (readLinksE false (writeLinksE true true none ["Clade A".toList, "Clade_A".toList, "clade a".toList] [2, 0, 1])).map
+    Except.toOption = [some 2, some 0, some 1] := by decide
+example : (writeLinksE true true none ["Clade A".toList, "Clade_A".toList] [1]).1
+    = [some "'Clade A'".toList, some "Clade_A.1".toList] := by decide
+example : escToken false true "it's".toList = "'it''s'".toList ∧ readToken false "'it''s'".toList = "it's".toList := by decide
+end DendroModel.C09
+
+/-! ## Tie A: kernels regenerated from the current source (`Gen/C09Consts.lean`, `Gen/Tables.lean`) equal the model's -/
+namespace DendroModel.C09
+
+/-- PHYLIP strict: the writer's slice / pad width, the reader's label and sequence columns are the model's `10`
+(`phWrite`, `phTaxon`); the relaxed spacer is the model's two blanks -/
+theorem bridge_phylip_widths :
+    C09Consts.phylipStrictSlice = 10 ∧ C09Consts.phylipStrictPad = 10 ∧ C09Consts.phylipStrictReadLabel = 10 ∧
+    C09Consts.phylipStrictReadRest = 10 ∧ C09Consts.phylipRelaxedSpacer = 2 := by decide
+
+/-- the same, as statements about the model's functions: the strict label field of `phWrite` and the split of `phTaxon` -/
+theorem bridge_phylip_strict (l line : Str) :
+    ljust C09Consts.phylipStrictPad (l.take C09Consts.phylipStrictSlice) = ljust 10 (l.take 10) ∧
+    (strip (line.take C09Consts.phylipStrictReadLabel), line.drop C09Consts.phylipStrictReadRest) = (strip (line.take 10), line.drop 10) :=
+  ⟨rfl, rfl⟩
+
+/-- FASTA: wrapping is on by default and breaks at the model's column (`wrap70`) -/
+theorem bridge_fasta_wrap : C09Consts.fastaWrap = true ∧ C09Consts.fastaWrapWidth = 70 := by decide
+
+/-- the DATATYPE keyword table of `_parse_format_statement`, as a function -/
+def genDataTypeOf (t : Str) : Str :=
+  match C09Consts.datatypeKeywords.find? (fun p => p.1.toList == t) with
+  | some p => p.2.toList
+  | none => C09Consts.datatypeDefault.toList
+
+/-- … is the model's `dataTypeOf` on EVERY token (order of the source's branches irrelevant) -/
+theorem bridge_datatype (t : Str) : dataTypeOf t = genDataTypeOf t := by
+  by_cases h1 : t = "DNA".toList
+  · subst h1; decide
+  by_cases h2 : t = "NUCLEOTIDES".toList
+  · subst h2; decide
+  by_cases h3 : t = "RNA".toList
+  · subst h3; decide
+  by_cases h4 : t = "NUCLEOTIDE".toList
+  · subst h4; decide
+  by_cases h5 : t = "PROTEIN".toList
+  · subst h5; decide
+  by_cases h6 : t = "CONTINUOUS".toList
+  · subst h6; decide
+  have e : ∀ k : Str, t ≠ k → (k == t) = false := fun k hk => by simpa using fun h => hk h.symm
+  have e' : ∀ k : Str, t ≠ k → (t == k) = false := fun k hk => by simpa using hk
+  unfold dataTypeOf genDataTypeOf
+  simp only [C09Consts.datatypeKeywords, C09Consts.datatypeDefault, List.find?, e _ h1, e _ h2, e _ h3, e _ h4, e _ h5, e _ h6,
+    e' _ h1, e' _ h2, e' _ h3, e' _ h4, e' _ h5, e' _ h6, Bool.or_self, Bool.false_eq_true, if_false]
+
+/-- the reader's initial FORMAT state and the symbol list a STANDARD datatype installs -/
+theorem bridge_format_init :
+    Fmt.init = ⟨C09Consts.datatypeDefault.toList, C09Consts.readerSymbols.toList, C09Consts.readerGap.toList,
+      C09Consts.readerMissing.toList, C09Consts.readerMatch.toList, C09Consts.readerInterleave⟩ ∧
+    C09Consts.datatypeDefaultSymbols.toList = "0123456789".toList := by decide
+
+/-- the tokenizer's captured delimiters and the quoting class (both regenerated) are the model's -/
+theorem bridge_captured : captured = Tables.tokCaptured := by decide
+
+example : genDataTypeOf "NUCLEOTIDES".toList = "dna".toList ∧ genDataTypeOf "FOO".toList = "standard".toList := by decide
+end DendroModel.C09
